@@ -95,3 +95,87 @@ def cross_interpreter(tuples: list[dict[str, Any]], seeds: tuple = (0, 1, 2, 7, 
     finally:
         os.unlink(path)
     return None
+
+
+def valid_greedy(work: dict[str, dict[str, float]], groups: list[list[int]],
+                 W: int, colocate: bool,
+                 placement: dict[str, dict[str, int]],
+                 any_layer_order: bool = False) -> bool:
+    """Is `placement` SOME outcome of the greedy rule of C17 -- layers in order
+    of decreasing total cost on a currently least-loaded group, factors in
+    decreasing cost on a currently least-loaded worker of it -- for some way
+    of breaking ties?  (The property does not fix tie-breaking; the
+    specification fixes it the way the pinned code does.  Used only when the
+    code's placement differs from the specification's.)"""
+    from itertools import permutations
+
+    if set(placement) != set(work):
+        return False
+    totals = {l: sum(fs.values()) for l, fs in work.items()}
+    gidx = {}
+    for l, fs in placement.items():
+        if set(fs) != set(work[l]):
+            return False
+        cand = [i for i, g in enumerate(groups)
+                if all(w in g for w in fs.values())]
+        if not cand and fs:
+            return False
+        gidx[l] = cand
+    seen: set = set()
+
+    def place_factors(l: str, g: list[int], loads: tuple) -> list[tuple]:
+        """All load vectors reachable by placing l's factors as in placement."""
+        fs = work[l]
+        if colocate:
+            ws = set(placement[l].values())
+            if len(ws) > 1:
+                return []
+            if not ws:
+                return [loads]
+            w = next(iter(ws))
+            if loads[w] != min(loads[x] for x in g):
+                return []
+            nl = list(loads)
+            nl[w] += totals[l]
+            return [tuple(nl)]
+        outs = []
+        items = sorted(fs.items(), key=lambda x: -x[1])
+        # permutations among equal costs
+        def rec(rest: list, cur: tuple) -> None:
+            if not rest:
+                outs.append(cur)
+                return
+            top = rest[0][1]
+            for j, (f, c) in enumerate(rest):
+                if c != top:
+                    break
+                w = placement[l][f]
+                if cur[w] != min(cur[x] for x in g):
+                    continue
+                nl = list(cur)
+                nl[w] += c
+                rec(rest[:j] + rest[j + 1:], tuple(nl))
+        rec(items, loads)
+        return outs
+
+    def search(remaining: frozenset, loads: tuple) -> bool:
+        if not remaining:
+            return True
+        key = (remaining, loads)
+        if key in seen:
+            return False
+        seen.add(key)
+        top = max(totals[l] for l in remaining)
+        cands = [l for l in remaining
+                 if any_layer_order or totals[l] == top]
+        for l in cands:
+            gl = [sum(loads[w] for w in g) for g in groups]
+            for gi in gidx[l]:
+                if gl[gi] != min(gl):
+                    continue
+                for nl in place_factors(l, groups[gi], loads):
+                    if search(remaining - {l}, nl):
+                        return True
+        return False
+
+    return search(frozenset(work), tuple([0.0] * W))
